@@ -5,6 +5,7 @@ from vlib import evidence, leafrt, runner, specmodel, xh
 
 PREAMBLE = [
     "from vlib import leafrt as R",
+    "R.ctx_cases()",
     "from props import c12rt as V",
 ]
 IMIN, IMAX = specmodel.INT_MIN, specmodel.INT_MAX
@@ -23,6 +24,18 @@ def lemmas(tier):
         out.append(xh.Lemma("conv_%s" % c.id, [("x", "int")], ["return R.conv_accepts(%r, x)[0] == %s" % (c.id, rng)], meta=dict(meta, what="converter accepts iff in range")))
         out.append(xh.Lemma("same_%s" % c.id, [("x", "int")], ["a = R.ctor_accepts(%r, x)" % c.id, "b = R.conv_accepts(%r, x)" % c.id, "return a[0] == b[0] and (not a[0] or (a[1] == x and b[1] == x))"], meta=dict(meta, what="same verdict at both entry points, value preserved")))
         out.append(xh.Lemma("msg_%s" % c.id, [("x", "int")], ["return R.ctor_error_names_attribute(%r, x)" % c.id], meta=dict(meta, what="ValueError names Class.attribute")))
+    # the same verdict when the property is reached through a parent: directly, through a union (hand-written hook or
+    # cattrs' disambiguation chooses the class whose validators run), an array or a map
+    ctx = leafrt.ctx_cases()
+    for cc in ctx.values():
+        lo, hi = cc.case.detail["lo"], cc.case.detail["hi"]
+        out.append(xh.Lemma("ctx_%s" % cc.id, [("x", "int")], ["return R.ctx_accepts(%r, x) == (%d <= x <= %d)" % (cc.id, lo, hi)], meta={"site": cc.site, "what": "converter accepts iff in range, through the parent"}))
+    # earlier calls do not change a verdict: an equal float (rejected: not an int), another int, the same int
+    for v, lo in (("integer_validator", IMIN), ("uinteger_validator", 0)):
+        rng = "(%d <= x <= %d)" % (lo, IMAX)
+        out.append(xh.Lemma("val_histf_%s" % v, [("x", "int"), ("k", "int")], ["return V.after(%r, k, float(x), x) == %s" % (v, rng)], pre=["0 <= k < V.N_ATTRS", "-(2**40) <= x <= 2**40"], meta={"site": "validators.%s(int) after the equal float was validated" % v}))
+        out.append(xh.Lemma("val_histi_%s" % v, [("x", "int"), ("y", "int"), ("k", "int")], ["return V.after(%r, k, y, x) == %s" % (v, rng)], pre=["0 <= k < V.N_ATTRS"], meta={"site": "validators.%s(int) after another int was validated" % v}))
+        out.append(xh.Lemma("val_histb_%s" % v, [("b", "bool"), ("k", "int")], ["return V.after(%r, k, 2.0 if b else -1.0, 2 if b else -1) == (%d <= (2 if b else -1))" % (v, lo)], pre=["0 <= k < V.N_ATTRS"], meta={"site": "validators.%s(int) after a concrete float was validated" % v}))
     # the two validator functions, any argument
     for v, lo in (("integer_validator", IMIN), ("uinteger_validator", 0)):
         out.append(xh.Lemma("val_int_%s" % v, [("x", "int"), ("k", "int")], ["return V.validator_exact(%r, k, x) == (%d <= x <= %d)" % (v, lo, IMAX)], pre=["0 <= k < V.N_ATTRS"], meta={"site": "validators.%s(int)" % v}))
@@ -128,7 +141,7 @@ def check(tier):
     chk.ev.coverage["bounds"] = {"integers": "unbounded (z3 Int)", "strings": "non-int string arguments of the validators: 5 concrete strings selected by a symbolic index", "floats": "CrossHair float model"}
     chk.ev.coverage["outside_bounds"] = ["the digits of the offending value inside the error text (format stub)", "non-integral floats passed to the converter (int() truncation, not one of the property's entry conditions)"]
     chk.ev.coverage["stubs"] = ["format(symbolic int, '') -> '<int>'", "cattrs code generation under NoTracing", "handler lookup memoised outside tracing"]
-    chk.ev.coverage["rule"] = "one lemma per (integer-typed attribute x {constructor, converter, agreement, message}) plus validator-function lemmas per argument kind; non-trivial = reachability twin violated"
+    chk.ev.coverage["rule"] = "one lemma per (integer-typed attribute x {constructor, converter, agreement, message}), one per (attribute x parent context: %d contexts, %d through a union) plus validator-function lemmas per argument kind and per one-call history; non-trivial = reachability twin violated" % (len(leafrt.ctx_cases()), sum(1 for c in leafrt.ctx_cases().values() if c.through_union))
     for c in ints[:4]:
         chk.ev.sample({"lemma": "conv_%s" % c.id, "site": c.site, "range": [c.detail["lo"], c.detail["hi"]], "template": c.template})
     chk.ev.coverage["explanation"] = (
@@ -143,6 +156,23 @@ def check(tier):
 def _replay(chk, lid, lemma, r, fc):
     site = lemma.meta["site"]
     a = r.args or {}
+    if lid.startswith("ctx_"):
+        cc = leafrt.ctx_cases()[lid.split("_", 1)[1]]
+        x = a.get("x")
+        lo, hi = cc.case.detail["lo"], cc.case.detail["hi"]
+        got = leafrt.ctx_accepts(cc.id, x)
+        if got != (lo <= x <= hi):
+            import json
+
+            code = (
+                "import json\nfrom lsprotocol import converters, types\nJ = json.loads(%r)\n"
+                "def replay():\n    c = converters.get_converter()\n    try:\n        c.structure(J, types.%s); acc = True\n    except Exception:\n        acc = False\n"
+                "    return (acc == %r, 'converter %%s %s = %d (range [%d, %d])' %% ('accepts' if acc else 'rejects'))\n"
+            ) % (json.dumps(leafrt._ctx_json(cc, x)), cc.root_name, lo <= x <= hi, ".".join(str(k) for k in cc.path), x, lo, hi)
+            chk.violation("%s: converter %s %d (range [%d, %d]) while the constructor %s it" % (site, "accepts" if got else "rejects", x, lo, hi, "accepts" if lo <= x <= hi else "rejects"), {"kind": "python", "code": code, "site": site, "args": a})
+        else:
+            chk.harness_error("counterexample for %s (%s) did not reproduce: %s" % (lid, site, r.message[:200]))
+        return
     if lid.split("_")[0] in ("ctor", "conv", "same", "msg"):
         c = fc[lid.split("_", 1)[1]]
         x = a.get("x")
